@@ -59,6 +59,7 @@ func TestCheck(t *testing.T) {
 			runUpgradeGroup(t, rep, probeOn)
 		}
 	}
+	commandLines(t, rep, shard, of)
 	for _, probeOn := range []bool{true, false} {
 		for _, proto := range []string{"h1", "h2"} {
 			methods := []string{"GET", "HEAD", "POST"}
